@@ -144,11 +144,13 @@ class TlcResult:
         self.errors = [l for l in out.splitlines() if l.startswith("Error:")]
 
     def prints(self, tag):
-        """PrintT(<<tag, ...>>) lines, parsed as python lists."""
+        """PrintT("@@TAG|f1|f2...") lines (one TLA+ string each), returned as [TAG, f1, f2, ...]."""
         res = []
+        pre = '"@@%s|' % tag
         for line in self.out.splitlines():
-            if line.startswith('<<"%s"' % tag):
-                res.append(parse_tla_tuple(line))
+            if line.startswith(pre) and line.endswith('"'):
+                body = parse_tla_tuple("<<" + line + ">>")[0]
+                res.append(body[2:].split("|"))
         return res
 
 
@@ -252,8 +254,8 @@ def validate_trace(workdir, trace_module, trace_file_name, lines, constants="", 
     rep = r.prints("BADLINES")
     if not rep:
         raise Inconclusive("trace validation produced no report (%s):\n%s" % (trace_module, r.out[-3000:]))
-    bad = json.loads(rep[-1][1])
-    n = rep[-1][3]
+    bad = json.loads(rep[-1][2])
+    n = int(rep[-1][1])
     if n != len(lines):
         raise Inconclusive("trace validation read %d of %d lines" % (n, len(lines)))
     shutil.rmtree(sub, ignore_errors=True)
